@@ -303,6 +303,9 @@ theorem rollback_restores {s : State NB} (r : Reachable s) (tx : Tx) (opt : AddO
           by_cases hpay : (opt.payload == some false) = true
           · simp [hpay]
           · simp only [hpay, Bool.false_eq_true, if_false]
+            by_cases hp0 : putFailsIn opt.putFails 0 (if opt.payload.isSome then 1 else 0) = true
+            · simp [hp0]
+            simp only [hp0, Bool.false_eq_true, if_false]
             by_cases hsp : (opt.payload.isSome && opt.savePayloadEventFails) = true
             · simp [hsp]
             · simp only [hsp, Bool.false_eq_true, if_false]
@@ -311,9 +314,17 @@ theorem rollback_restores {s : State NB} (r : Reachable s) (tx : Tx) (opt : AddO
               | panic e => simp
               | ok d =>
                 simp only []
+                generalize (if opt.payload.isSome then 1 else 0) + 4 +
+                  (if (decide (tx.clock > s.disk.lcHigh) || tx.clock == 0) = true then 1 else 0) = ng
+                by_cases hp1 : putFailsIn opt.putFails (if opt.payload.isSome then 1 else 0) ng = true
+                · simp [hp1]
                 by_cases hst : opt.saveTxEventFails = true
-                · simp [hst]
-                · simp [hst, hf]
+                · simp [hp1, hst]
+                by_cases hp2 : putFailsIn opt.putFails ng (ng + 1) = true
+                · simp [hp1, hst, hp2]
+                by_cases hp3 : putFailsIn opt.putFails (ng + 1) (ng + 2) = true
+                · simp [hp1, hst, hp2, hp3]
+                · simp [hp1, hst, hp2, hp3, hf]
     · exact a.2.1 hok
   have o := observables_of_sinv a.1
   rw [hd] at o
@@ -355,18 +366,46 @@ theorem diagnostics_spec {s : State NB} (r : Reachable s) :
     write: error reported, disk untouched, observables unchanged -/
 theorem save_failure_is_rolled_back {s : State NB} (r : Reachable s) (tx : Tx) (opt : AddOpts)
     (hp : s.disk.isPresent tx.ref = false) (hv : s.disk.verifyPrevs tx = .ok ()) (hpay : opt.payload = some true)
-    (hs : opt.savePayloadEventFails = true) :
+    (hs : opt.savePayloadEventFails = true) (hnp : opt.putFails = none) :
     (add cfg s tx opt).2 = .err "save-failed" ∧ (add cfg s tx opt).1.disk = s.disk ∧
     Observables (add cfg s tx opt).1 s.disk.txs := by
   have herr : (add cfg s tx opt).2 = .err "save-failed" := by
     unfold Nuts.C08.add
-    simp [hp, hv, hpay, hs]
+    simp [hp, hv, hpay, hs, hnp, putFailsIn]
   have := add_rejected_noop r tx opt (by rw [herr]; intro e; cases e)
   exact ⟨herr, this.1, this.2⟩
 
 example : (add cfg (State.init cfg : State NB) exRoot { saveTxEventFails := true }).2 = .err "save-failed" := by decide
 example : (add cfg (State.init cfg : State NB) exRoot { payload := some true, savePayloadEventFails := true }).2 =
     .err "save-failed" := by decide
+
+/-- **Any failure point inside `updateState`.** `updateState` is not atomic in memory (raise the atomic clock, insert
+    into the IBLT tree, put its leaf, insert into the XOR tree, put its leaf). Whichever of its store writes fails, once
+    the rollback handler has run every observable — for every requested clock — is what the unchanged stored set
+    implies: the in-memory state equals the last committed state. -/
+theorem partial_update_is_rolled_back {s : State NB} (r : Reachable s) (tx : Tx) (stage : Nat) :
+    (rollback cfg (partialUpdate s tx stage)).disk = s.disk ∧
+    Observables (rollback cfg (partialUpdate s tx stage)) s.disk.txs := by
+  have h := (reachable_inv r).rollback_partial cfg_good tx stage
+  have o := observables_of_sinv h.1
+  rw [h.2] at o
+  exact ⟨h.2, o⟩
+
+/-- a store fault at the k-th `Put` of the write transaction, wherever k falls (payload, clock index, transaction,
+    metadata, IBLT leaf, XOR leaf — or beyond the last put, where nothing fails): the invariant holds afterwards, and if
+    an error is reported the disk is untouched and the observables are unchanged -/
+theorem store_fault_at_any_put {s : State NB} (r : Reachable s) (tx : Tx) (opt : AddOpts) (k : Nat)
+    (_hk : opt.putFails = some k) :
+    SInv cfg (add cfg s tx opt).1 ∧
+    ((add cfg s tx opt).2 ≠ .ok () → (add cfg s tx opt).1.disk = s.disk ∧ Observables (add cfg s tx opt).1 s.disk.txs) :=
+  ⟨((reachable_inv r).add cfg_good tx opt).1, fun herr => add_rejected_noop r tx opt herr⟩
+
+/-- non-vacuity: the root's puts are clock index, transaction, lc_high, head_ref, tx_num, IBLT leaf, XOR leaf — the 6th
+    and 7th fail inside `updateState`, an 8th does not exist -/
+example : (add cfg (State.init cfg : State NB) exRoot { putFails := some 6 }).2 = .err "put-failed" := by decide
+example : (add cfg (State.init cfg : State NB) exRoot { putFails := some 7 }).2 = .err "put-failed" := by decide
+example : (add cfg (State.init cfg : State NB) exRoot { putFails := some 8 }).2 = .ok () := by decide
+example : (xorAt (add cfg (State.init cfg : State NB) exRoot { putFails := some 7 }).1 0).1 = 0 := by decide
 
 /-! ### repair -/
 
